@@ -1016,4 +1016,58 @@ func (c *Ctx) checkURLParamsReadOnly() {
 	if bad == 0 {
 		c.ok(rule, "no store through a *url.URL parameter or a URL field of a rendezvous object", "-", fmt.Sprintf("%d store(s) into url.URL fields examined (request URLs and fresh results)", n))
 	}
+	// A URL that was parsed, resolved or copied from another carries the escaped form of its path in RawPath;
+	// net/url uses RawPath only while it is a valid encoding of Path. Writing Path alone on such a URL silently
+	// drops the escapes of the configured broker path (EscapedPath falls back to the default encoding). Only a
+	// URL built field by field in a fresh composite literal has no RawPath to go stale.
+	ruleR := "O-5d a rewritten path keeps its escaped form"
+	nP, badP := 0, 0
+	for _, fn := range scope {
+		type acc struct {
+			path    []*ssa.Store
+			rawPath bool
+			whole   bool
+		}
+		bases := map[ssa.Value]*acc{}
+		get := func(v ssa.Value) *acc {
+			if bases[v] == nil {
+				bases[v] = &acc{}
+			}
+			return bases[v]
+		}
+		allInstrs(fn, func(in ssa.Instruction) {
+			st, ok := in.(*ssa.Store)
+			if !ok {
+				return
+			}
+			if fa, okf := st.Addr.(*ssa.FieldAddr); okf && strings.HasSuffix(fa.X.Type().String(), "*net/url.URL") {
+				if _, f, okn := fieldOfAddr(fa); okn {
+					switch f.Name() {
+					case "Path":
+						get(xstrip(fa.X)).path = append(get(xstrip(fa.X)).path, st)
+					case "RawPath":
+						get(xstrip(fa.X)).rawPath = true
+					}
+				}
+				return
+			}
+			if strings.HasSuffix(st.Addr.Type().String(), "*net/url.URL") {
+				get(xstrip(st.Addr)).whole = true
+			}
+		})
+		for base, a := range bases {
+			for _, st := range a.path {
+				nP++
+				_, fresh := base.(*ssa.Alloc)
+				if (fresh && !a.whole) || a.rawPath {
+					continue
+				}
+				badP++
+				c.viol(ruleR, p.FnName(fn)+" rewrites the Path of a parsed or copied URL", p.instrPos(st), "Path is stored on a URL that was not built in place, and RawPath is left as it was: escaped characters of the configured broker path are lost from the request URL")
+			}
+		}
+	}
+	if badP == 0 {
+		c.ok(ruleR, "every store to url.URL.Path is on a URL built in place (or RawPath is stored with it)", "-", fmt.Sprintf("%d store(s) to Path examined", nP))
+	}
 }
